@@ -80,6 +80,19 @@ func (u *uni) appendCmd() {
 	l := u.logs[t]
 	for i, n := 0, 1+u.rng.Intn(3); i < n; i++ {
 		k := []int{0, 0, 0, 0, 4, 1, 5}[u.rng.Intn(7)]
+		if k == 5 {
+			// a real leader appends a configuration only when the previous one is committed and an
+			// entry of its own term is committed (C07's gate)
+			gate := len(u.H) > 0 && u.H[len(u.H)-1].term == t
+			for _, x := range l {
+				if x.kind == 5 && x.idx > len(u.H) {
+					gate = false
+				}
+			}
+			if !gate {
+				k = 0
+			}
+		}
 		e := entry{idx: len(l) + 1, term: t, kind: k}
 		if k == 5 {
 			c, _ := cfgAt(l, len(l))
